@@ -24,7 +24,7 @@ ASSUMPTIONS = [
 TRUSTED = ["async_solipsism virtual-time loop + time_machine", "frequenz.channels Broadcast/select/Timer (real ones, driven by the harness)"]
 
 META = {
-    "technique": "Coq proof (invariants of the tracker's transition system by induction over ALL event histories; refinement of BlockingStatus to a closed-form back-off counter; set lemmas for the pool) + T-tie translation of BlockingStatus.block/unblock/is_blocked, the valid-state tables, critical level, min/max blocking duration and max data age + trace refinement: the real BatteryStatusTracker runs on async_solipsism virtual time with probe collaborators, the recorded boundary events (which receiver was consumed when, which notification was sent) are replayed through the model inside Coq (vm_compute); BlockingStatus and ComponentPoolStatus(Tracker) are additionally compared op-by-op, and an end-to-end stream lets the real ComponentPoolStatusTracker create the real BatteryStatusTrackers (constructor wiring: max_data_age, max_blocking_duration, per-tracker set-power receiver, merged status channel) with every expectation computed from the values given to the pool",
+    "technique": "Coq proof (invariants of the tracker's transition system by induction over ALL event histories; refinement of BlockingStatus to a closed-form back-off counter; set lemmas for the pool) + T-tie translation of BlockingStatus.block/unblock/is_blocked, the valid-state tables, critical level, min/max blocking duration and max data age + trace refinement: the real BatteryStatusTracker runs on async_solipsism virtual time with probe collaborators, the recorded boundary events (which receiver was consumed when, which notification was sent) are replayed through the model inside Coq (vm_compute); BlockingStatus and ComponentPoolStatus(Tracker) are additionally compared op-by-op, and an end-to-end stream lets the real ComponentPoolStatusTracker create the real BatteryStatusTrackers (constructor wiring: max_data_age, max_blocking_duration, per-tracker set-power receiver, merged status channel) with every expectation computed from the values given to the pool; a manager stream takes the set-power outcomes from the real BatteryManager.distribute_power over a fault-injecting fake API (who is mentioned as succeeded/failed comes from production code, the oracle judges by the commands the API actually received); message timestamps are also stamped in non-UTC zones (fixed offsets, zoneinfo zones, runs started 30 s before a DST switch)",
     "level_text": "Machine-checked theorems, closed under the global context, on a Gallina model of one iteration of BatteryStatusTracker._run's select loop: C16_safe (for every history, a WORKING/UNCERTAIN report implies that the latest battery and inverter messages each passed every predicate when handled and no data time-out was processed since), C16_immediate (a failing message or an effective time-out gives NOT_WORKING and a notification in the same step), C16_uncertain / C16_recover (exact status whenever it is evaluated), C16_backoff_invariant + C16_backoff (k-th consecutive expired-block failure blocks until now + min(2^(k-1) d_min, d_max); success and recovery reset), C16_only_on_change, C16_pool / C16_pool_complete. The model is tied to the code by replaying thousands of recorded traces of the real tracker (random words <= 40 events: healthy and singly-faulty messages, silences beyond the max data age, late timer events produced by a blocking status sender, coincident events, all set-power outcomes); the property is also judged directly on each recorded trace by an independent Python bookkeeping.",
     "level_note": "Proved on the model; the model/code agreement is checked by correspondence (generator coverage bounds it), not proved. BlockingStatus.block/unblock/is_blocked are TRANSLATED from _blocking_status.py (kind \"method\": the method as a pure function of the object's fields and the clock reading) and additionally compared op-by-op with the real class. Not proved: that the data Timer fires (runtime assumption, exercised), asyncio/select scheduling, that nothing raises inside the loop. Observations: the UNCERTAIN -> WORKING transition happens at the first event handled after the deadline, not at the deadline itself; message age is checked on receipt only, so data can be up to 2 x max_data_age old by their own timestamp while WORKING; timestamps ahead of the local clock delay the detection of a silence.",
 }
